@@ -64,7 +64,8 @@ type cmdCase struct {
 	Head       bool   `json:"head"`
 	Lookup     bool   `json:"lookup"`
 	ClientCert string `json:"clientcert"` // "none" | "pair" (-cert and -key) | "onefile" (-cert holding both)
-	DNSDest    string `json:"dnsdest"`    // "none" | "forever" | "off": the -connect-to destination is a name served by e2eDNS
+	Tickets    bool   `json:"tickets"`
+	DNSDest    string `json:"dnsdest"` // "none" | "forever" | "off": the -connect-to destination is a name served by e2eDNS
 }
 
 // e2eDNS is the address of the driver's DNS server (given to the command with -resolvers); e2eDNSQueries counts the
@@ -120,6 +121,9 @@ var clientCertPEM = sync.OnceValues(func() (string, string) {
 func (c cmdCase) dnsName(dir string) string { return filepath.Base(dir) + ".dest.test" }
 
 func (c cmdCase) valid() bool {
+	if c.Tickets && c.Server != "tls" && c.Server != "tls2" && c.Server != "mtls" {
+		return false
+	}
 	if c.ClientCert != "none" && c.Server != "tls" && c.Server != "mtls" {
 		return false
 	}
@@ -316,6 +320,9 @@ func (c cmdCase) op(dir string) map[string]any {
 	if c.Server == "unix" {
 		args = append(args, "-unix-socket", "{{SOCK}}")
 	}
+	if c.Tickets {
+		args = append(args, "-session-tickets")
+	}
 	switch c.ClientCert {
 	case "pair":
 		args = append(args, "-cert", "{{DIR}}/client.pem", "-key", "{{DIR}}/client.key")
@@ -385,6 +392,7 @@ func TestDrv_E2E(t *testing.T) {
 		}
 		if c.Server == "tls" || c.Server == "tls2" || c.Server == "mtls" {
 			c.Trust = pick("insecure", "rootcert", "none")
+			c.Tickets = r.Intn(2) == 0
 		}
 		c.H2C = c.Server == "h2c" && r.Intn(2) == 0
 		c.HostHdr = r.Intn(5) == 0
@@ -531,7 +539,7 @@ func TestDrv_E2E(t *testing.T) {
 				}
 				qs = append(qs, KV{"seq": seq, "attack": str(q, "attack"), "method": str(q, "method"), "path": str(q, "path"), "host": host, "dialhost": dialhost,
 					"flag": vals("X-Flag"), "own": vals("X-Own"), "body": str(q, "body"), "chunked": q["chunked"] == true, "ip": ip,
-					"conn": num("conn_id"), "tls": q["tls"] == true, "client_certs": num("client_certs"), "proto": str(q, "proto"), "start": num("start_ns") / 1000, "end": num("end_ns") / 1000})
+					"conn": num("conn_id"), "tls": q["tls"] == true, "client_certs": num("client_certs"), "resumed": q["resumed"] == true, "proto": str(q, "proto"), "start": num("start_ns") / 1000, "end": num("end_ns") / 1000})
 			}
 		}
 		if len(qs) > 300 {
